@@ -152,7 +152,27 @@ def r2_real_headers(chk: Check) -> None:
     pr = [c for c in body_calls(acc) if last_attr(c) == "prepare_request"]
     chk.decide(bool(pr) and unparse(pr[0].args[0]) == "self" and unparse(pr[0].args[1]) == "headers", "C09.R2", acc, "prepare_request(self, headers, ...)", "the command is not prepared from this case and the given headers", acc.loc())
     prq = P.func("transport/prepare.py:prepare_request")
-    chk.expect(phas("REQUESTS_TRANSPORT.serialize_case(case, base_url=$b, headers=headers)", prq.node), "C09.R2", prq, "same serializer as the requests transport", "the command is prepared by a different serialisation than the one that sent the request", prq.loc())
+    # call-time `params=` (extra query parameters of case.call / call_and_validate) are part of the request that was sent
+    # but not of the case: the reproduction command printed by validate_response has to get them the same way
+    vr_ = P.func("generation/case.py:Case.validate_response")
+    acc_calls = [c for c in body_calls(vr_) if last_attr(c) == "as_curl_command"]
+    tk = next((p_ for p_ in params_of(vr_.node) if "transport_kwargs" in p_), None)
+    construct = "call-time params reach the reproduction command of validate_response"
+    if not acc_calls or tk is None:
+        chk.undecided("C09.R2", vr_, construct, "as_curl_command call / transport_kwargs parameter not found", vr_.loc())
+    else:
+        pv = kwarg(acc_calls[0], "params")
+        from_tk = pv is not None and any(tk in t_ for t_ in canon(vr_, pv))
+        fwd1 = any(kwarg(c, "params") is not None for c in body_calls(acc) if last_attr(c) == "prepare_request")
+        fwd2 = any(kwarg(c, "params") is not None for c in body_calls(prq) if last_attr(c) == "serialize_case")
+        if from_tk and fwd1 and fwd2:
+            chk.ok("C09.R2", vr_, construct, "", vr_.loc(acc_calls[0]))
+        else:
+            missing = "validate_response -> as_curl_command" if not from_tk else ("as_curl_command -> prepare_request" if not fwd1 else "prepare_request -> serialize_case")
+            chk.violation("C09.R2", vr_, construct,
+                          f"`params` are not passed on at `{missing}`: `case.call_and_validate(params={{'extra': 'E'}})` sends `/x?q=1&extra=E`, but the printed `Reproduce with` command requests `/x?q=1` (the transport no longer writes call-time params into case.query, which is right - so they have to be handed to the command explicitly)",
+                          vr_.loc(acc_calls[0]))
+    chk.expect(phas("REQUESTS_TRANSPORT.serialize_case(case, base_url=$b, headers=headers, *...)", prq.node) or phas("REQUESTS_TRANSPORT.serialize_case(case, base_url=$b, headers=headers)", prq.node), "C09.R2", prq, "same serializer as the requests transport", "the command is prepared by a different serialisation than the one that sent the request", prq.loc())
 
 
 def r3_filter_headers(chk: Check) -> None:
